@@ -501,6 +501,16 @@ func cmdReplay(path string) int {
 		fmt.Println(out)
 	}
 	if reproduced(rf.Kind, res) {
+		// same rule as in the checks: a listed known finding is named, not raised again
+		for _, kf := range loadKnown() {
+			if !kf.fixed && kf.property == rf.Property && (kf.harness == "" || kf.harness == rf.Harness) &&
+				(kf.label == "" || strings.Contains(rf.Label+" "+rf.Pos+" "+res, kf.label)) {
+				txt := strings.TrimSpace(strings.TrimPrefix(kf.text, "finding:"))
+				txt = strings.TrimSpace(strings.TrimPrefix(txt, "property="+rf.Property))
+				fmt.Printf("KNOWN-FINDING: property=%s %s\n", rf.Property, txt)
+				return 0
+			}
+		}
 		fmt.Printf("VIOLATION property=%s replay=%s\n", rf.Property, path)
 		return 1
 	}
